@@ -16,6 +16,8 @@ def weights_for(R):
         return [1]
     if R in (Sat2, Sat3):
         return [1, 1, 2]
+    if getattr(R, "__name__", "") == "BM2":
+        return [(1, 0, 0, 1), (0, 1, 0, 0), (0, 0, 1, 0), (1, 1, 0, 0), (0, 1, 1, 0), (0, 0, 0, 1)]
     return [Fraction(1, 2), Fraction(1, 4), Fraction(1), Fraction(3, 4), Fraction(2), Fraction(1, 2)]
 
 
@@ -32,7 +34,7 @@ def build_cfg(R, rules, V=("a", "b"), S="S"):
     return g
 
 
-def rand_rules(rng, R, nN=3, V=("a", "b"), nrules=5, maxbody=3, shape="any"):
+def rand_rules(rng, R, nN=3, V=("a", "b"), nrules=5, maxbody=3, shape="any", dup=0.3):
     """Random rule list.
 
     shape = 'any'     : any symbol anywhere (nullary rules, unary cycles, duplicates, useless symbols)
@@ -67,6 +69,9 @@ def rand_rules(rng, R, nN=3, V=("a", "b"), nrules=5, maxbody=3, shape="any"):
         else:
             raise ValueError(shape)
         rules.append((rng.choice(ws), h, body))
+    # exact duplicates (same weight, head and body) are part of several properties' quantifiers
+    while rules and rng.random() < dup:
+        rules.insert(rng.randrange(len(rules) + 1), rng.choice(rules))
     return rules
 
 
@@ -159,3 +164,14 @@ def features(g):
 def feature_key(g):
     f = features(g)
     return "+".join(k for k, v in sorted(f.items()) if v) or "plain"
+
+
+def tlc_family(shard, nshards):
+    """The slice of the TLC-enumerated exhaustive family (MCGrammarSem.tla) this generator process replays."""
+    import json
+    import os
+    path = os.environ.get("VERIF_FAMILY")
+    if not path:
+        return []
+    fam = json.load(open(path))
+    return [G for i, G in enumerate(fam) if i % nshards == shard]
